@@ -237,11 +237,19 @@ fn emit_extra(ph: &mut Vec<u8>, e: &(u32, u32, u64, u64, u64), segs: &[Seg], seg
 
 /// Random well-formed static executable. `rich`: symbols, extra headers, unusual sizes.
 pub fn gen_spec(rng: &mut Rng, rich: bool) -> ElfSpec {
+    gen_spec_at(rng, rich, None)
+}
+
+/// `first_page`: page number of the first segment (None: the usual 4 MiB region, sometimes unusual places)
+pub fn gen_spec_at(rng: &mut Rng, rich: bool, first_page: Option<u64>) -> ElfSpec {
     let n = rng.range(1, if rich { 6 } else { 3 }) as usize;
     let mut segs = Vec::new();
     let mut page = 0x400u64 + rng.below(0x40); // page number
     if rich && rng.below(6) == 0 {
         page = *rng.pick(&[1u64, 2, 0x10, 0x7fff_f000, 0x5555_5555_4000 >> 0, 0x10_0000]);
+    }
+    if let Some(p) = first_page {
+        page = p;
     }
     let mut counter = rng.next();
     for _ in 0..n {
